@@ -1,9 +1,10 @@
 PROPS["C06"] = {
-    "bounds": "real relay()/updateConn/NewConn/HandleData/checkEOF goroutines over the TCP endpoint model; endpoint absent / healthy / accepting but never reading / absent at first and healthy after the next reconnect tick; 2..4 lines of 1..2 symbolic bytes, connbuf 1..2, iobuf 4, optional reconnect tick between lines; all select-level schedules (run-to-block scheduling, forks over ready select cases)",
+    "bounds": "real relay()/updateConn/NewConn/HandleData/checkEOF goroutines over the TCP endpoint model; endpoint absent / healthy / accepting but never reading / absent at first and healthy after the next reconnect tick; with spooling on: 3..5 lines spooled while absent, then the endpoint returns as a black hole (unspooling fills queue and buffers), 2..3 further lines, optionally the black hole closes and 2 more lines; 2..4 lines of 1..2 symbolic bytes, connbuf 1..2, iobuf 4, optional reconnect tick between lines; all select-level schedules (run-to-block scheduling, forks over ready select cases)",
     "outside": "wall-clock bounds and the Go scheduler's fairness (the no-stall claim is checked as: every hand-off on the unbuffered In channel completes, a stuck relay would be reported as deadlock); kernel/TCP behaviour beyond the model (dial refused, write ok/blocked/broken, read EOF on peer close); endpoint closing mid-stream without spool (transition, see C07); throttled endpoints (only the two extremes healthy/never-reading)",
     "assumptions": ["TCP endpoint model in the engine (engine/intrinsics_net.go)", "goroutines pre-empt only at blocking operations"],
     "groups": [
         {"pkg": "destination", "hdir": "destination", "native_optional": True, "specs": [spec("C06/steady", "VerifC06Steady")]},
+        {"pkg": "destination", "hdir": "destination", "native_optional": True, "specs": [spec("C06/spool-then-black-hole", "VerifC06SpoolBlackhole")]},
         {"pkg": "destination", "hdir": "destination", "native_optional": True, "specs": [spec("C06/steady/healthy/2-lines/preemptions<=1", "VerifC06Steady", {"preemptions": "1", "endpoint": "1", "nlines": "2", "connbuf": "1"}, tier="thorough")]},
         {"pkg": "destination", "hdir": "destination", "native_optional": True, "specs": [spec("C06/steady/healthy/3-lines/preemptions<=1", "VerifC06Steady", {"preemptions": "1", "endpoint": "1", "nlines": "3", "connbuf": "1"}, tier="thorough")]},
         {"pkg": "destination", "hdir": "destination", "native_optional": True, "specs": [spec("C06/steady/healthy/2-lines/preemptions<=2", "VerifC06Steady", {"preemptions": "2", "endpoint": "1", "nlines": "2", "connbuf": "1"}, tier="thorough")]},
